@@ -10,6 +10,7 @@ import os
 import subprocess
 import sys
 import hashlib
+sys.path.insert(0, os.path.dirname(os.path.abspath(__file__)))
 
 HEADERS = ['string', 'string_stream', 'format', 'codecs', 'iostream', 'stdio', 'char_buffer', 'utf_conversion',
            'formatter', 'format_numeric', 'exceptions', 'assert']
@@ -33,11 +34,18 @@ def main():
             h.update(open(p, 'rb').read())
     stamp = os.path.join(work, 'stamp_' + hashlib.sha1(repo.encode()).hexdigest()[:8])
     out_v = os.path.join(verif, 'coq/Gen/Statics.v')
+    leaf_v = os.path.join(verif, 'coq/Gen/Leaf.v')
     cache_v = stamp + '.v'
-    if os.path.exists(stamp) and open(stamp).read() == h.hexdigest() and os.path.exists(cache_v):
-        content = open(cache_v).read()
-        if not os.path.exists(out_v) or open(out_v).read() != content:
-            open(out_v, 'w').write(content)
+    cache_leaf = stamp + '.leaf.v'
+    # the translator itself is part of the cache key
+    import leaf_translate
+    h.update(open(leaf_translate.__file__, 'rb').read())
+    h.update(open(os.path.abspath(__file__), 'rb').read())
+    if os.path.exists(stamp) and open(stamp).read() == h.hexdigest() and os.path.exists(cache_v) and os.path.exists(cache_leaf):
+        for src, dst in ((cache_v, out_v), (cache_leaf, leaf_v)):
+            content = open(src).read()
+            if not os.path.exists(dst) or open(dst).read() != content:
+                open(dst, 'w').write(content)
         return
     tu = os.path.join(work, 'tu.cpp')
     with open(tu, 'w') as f:
@@ -157,6 +165,13 @@ def main():
     content = '\n'.join(lines) + '\n'
     open(out_v, 'w').write(content)
     open(cache_v, 'w').write(content)
+    # leaf functions: C++ -> Gallina (coq/Gen/Leaf.v); a function that cannot be translated is left out, and the
+    # bridge theorem that mentions it then no longer compiles
+    leaf_text, leaf_errors = leaf_translate.generate(root, inc, cfg)
+    for name, err in leaf_errors:
+        sys.stderr.write('leaf_translate: %s: %s\n' % (name, err))
+    open(leaf_v, 'w').write(leaf_text)
+    open(cache_leaf, 'w').write(leaf_text)
     open(stamp, 'w').write(h.hexdigest())
 
 
